@@ -1721,10 +1721,10 @@ def compare(ctx, c, ans):
             # exact arithmetic reaches r = 0 and returns; doubles keep taking ~1e-16 steps
             final = core.pfl(fields['x'])
             mlog = mlog + [final] * (len(ilog) - len(mlog))
-        d = sl.seq_mismatch(ilog, mlog, exact=exact and not ex.get('_prefix'), rtol=1e-8)
+        d = c11.compare_seq(ctx, c, ilog, mlog, exact and not ex.get('_prefix'), rtol=1e-8)
     for k, v in sorted(ex.items()):
         if d is None and not k.startswith('_') and k in fields:
-            d = sl.seq_mismatch([v], [core.pfl(fields[k])], exact=exact)
+            d = c11.compare_extra(c, k, v, core.pfl(fields[k]), exact)
             d = d and 'final {}: {}'.format(k, d)
     if d:
         ctx.disagree(c.desc, d, ans[:300])
@@ -1733,7 +1733,9 @@ def compare(ctx, c, ans):
 def run(ctx, deep=False):
     cases = []
     for fam, cseed, exact, n in plan(ctx, deep):
-        cases.extend(run_one(ctx, fam, cseed, exact, n))
+        got = run_one(ctx, fam, cseed, exact, n)
+        c11.add_envelopes(got, lambda: run_one(core.Ctx(ctx.pid, ctx.tier, ctx.seed), fam, cseed, exact, n))
+        cases.extend(got)
     outs = core.run_driver('C12', [c.line for c in cases])
     for c, ans in zip(cases, outs):
         compare(ctx, c, ans)
@@ -1743,12 +1745,18 @@ def run(ctx, deep=False):
         for i in range(12 if ctx.quick and not deep else 40):
             exact = i % 3 != 2
             sub = core.Ctx('C11', ctx.tier, ctx.seed)
-            got = c11.FAMILIES[fam](sub, SeededRandom(ctx.rng.getrandbits(48)), exact,
-                                    ctx.rng.randint(1, 5 if exact else 8), opaque=False)
+            cs_, n_ = ctx.rng.getrandbits(48), ctx.rng.randint(1, 5 if exact else 8)
+            got = c11.FAMILIES[fam](sub, SeededRandom(cs_), exact, n_, opaque=False)
+            c11.add_envelopes(got, lambda: c11.FAMILIES[fam](core.Ctx('C11', ctx.tier, ctx.seed),
+                                                             SeededRandom(cs_), exact, n_, opaque=False))
             tie.extend(got)
             ctx.hit('model/c11-tie/' + fam)
     for i in range(12 if ctx.quick and not deep else 40):
-        tie.extend(tie_kaczmarz_random(ctx, SeededRandom(ctx.rng.getrandbits(48))))
+        cs_ = ctx.rng.getrandbits(48)
+        got = tie_kaczmarz_random(ctx, SeededRandom(cs_))
+        c11.add_envelopes(got, lambda: tie_kaczmarz_random(core.Ctx('C12', ctx.tier, ctx.seed),
+                                                           SeededRandom(cs_)))
+        tie.extend(got)
     outs = core.run_driver('C11', [c.line for c in tie])
     for c, ans in zip(tie, outs):
         compare(ctx, c, ans)
